@@ -323,3 +323,15 @@ package fs
 //@   ensures iofaults >= old(iofaults) && encSynced(e)
 //@   ensures err == nil ==> pos == fpos[e.privateFile] && pos >= 0
 //@   ensures err != nil ==> fpos[e.privateFile] == old(fpos[e.privateFile])
+
+// ---- generated images and decrypting views can never be written through (C05) ---------------------
+
+//@ func ISO3k3y.Write results(n, err)
+//@   tags C05
+//@   ensures n == 0 && err == syscall.EPERM && fsw == old(fsw)
+//@ func EncryptedISO.Write results(n, err)
+//@   tags C05
+//@   ensures n == 0 && err == syscall.EPERM && fsw == old(fsw)
+//@ func VirtualISO.Write results(n, err)
+//@   tags C05
+//@   ensures n == 0 && err == syscall.EPERM && fsw == old(fsw)
